@@ -13,22 +13,24 @@ import (
 	"os"
 	"path/filepath"
 	"strings"
+	"time"
 
 	"github.com/semihalev/twig"
 )
 
 type C16Case struct {
-	Prop     string          `json:"prop"`
-	Key      string          `json:"key"`
-	Tags     []string        `json:"tags"`
-	Name     []int           `json:"name"`
-	Source   []Piece         `json:"source"`
-	Helper   []Piece         `json:"helper"`
-	Pads     []Pad           `json:"pads"`
-	Lm       string          `json:"lm"`
-	FileSafe bool            `json:"filesafe"`
-	Ctx      json.RawMessage `json:"ctx"`
-	Expect   struct {
+	Prop       string          `json:"prop"`
+	Key        string          `json:"key"`
+	Tags       []string        `json:"tags"`
+	Name       []int           `json:"name"`
+	Source     []Piece         `json:"source"`
+	Helper     []Piece         `json:"helper"`
+	HelperName []int           `json:"helpername"`
+	Pads       []Pad           `json:"pads"`
+	Lm         string          `json:"lm"`
+	FileSafe   bool            `json:"filesafe"`
+	Ctx        json.RawMessage `json:"ctx"`
+	Expect     struct {
 		Ok  bool   `json:"ok"`
 		Out []int  `json:"out"`
 		Err string `json:"err"`
@@ -53,11 +55,18 @@ func byteInts(b []byte) []int {
 	return out
 }
 
+var prevData []byte
+var prevName, prevSrc string
+
 func runCompiled(c *C16Case, rec *bufio.Writer, tmp string, idx int) (res Result) {
 	res = Result{Prop: c.Prop, Key: c.Key, Tags: c.Tags, Pass: true, Runs: 1}
 	name := textOf(c.Name, nil, false)
 	src := sourceOf(c.Source, c.Pads)
 	helper := sourceOf(c.Helper, nil)
+	helperName := textOf(c.HelperName, nil, false)
+	if helperName == "" {
+		helperName = "t2"
+	}
 	res.Src = fmt.Sprintf("name=%q source=%s", name, short(src))
 	fail := func(why, got, want string) {
 		res.Pass = false
@@ -105,7 +114,7 @@ func runCompiled(c *C16Case, rec *bufio.Writer, tmp string, idx int) (res Result
 
 	// B. compiled form registered on another engine renders like the source
 	e1 := twig.New()
-	if err := e1.RegisterString("t2", helper); err != nil {
+	if err := e1.RegisterString(helperName, helper); err != nil {
 		fail("harness-helper", err.Error(), "")
 		return
 	}
@@ -146,7 +155,7 @@ func runCompiled(c *C16Case, rec *bufio.Writer, tmp string, idx int) (res Result
 	}
 	e2 := twig.New()
 	e2.SetAutoReload(true)
-	e2.RegisterString("t2", helper)
+	e2.RegisterString(helperName, helper)
 	if err := e2.RegisterCompiledTemplate(back2); err != nil {
 		fail("register-compiled", err.Error(), "")
 	} else {
@@ -156,13 +165,24 @@ func runCompiled(c *C16Case, rec *bufio.Writer, tmp string, idx int) (res Result
 		check("compiled-again", out2b, err2b)
 	}
 	e4 := twig.New()
-	e4.RegisterString("t2", helper)
+	e4.RegisterString(helperName, helper)
 	if err := e4.LoadFromCompiledData(data2); err != nil {
 		fail("load-from-data", err.Error(), "")
 	} else {
 		out4, err4 := e4.Render(name, ctx)
 		check("loaded-data", out4, err4)
 	}
+
+	// the bytes handed out earlier must not change when something else is serialised later
+	if prevData != nil {
+		pb, err := twig.DeserializeCompiledTemplate(prevData)
+		if err != nil {
+			fail("earlier-bytes-corrupted", err.Error(), "")
+		} else if pb.Name != prevName || pb.Source != prevSrc {
+			fail("earlier-bytes-changed", fmt.Sprintf("%q len=%d", pb.Name, len(pb.Source)), fmt.Sprintf("%q len=%d", prevName, len(prevSrc)))
+		}
+	}
+	prevData, prevName, prevSrc = data2, name, src
 
 	// C. files written by the compiled loader are read back the same way
 	if c.FileSafe {
@@ -173,7 +193,7 @@ func runCompiled(c *C16Case, rec *bufio.Writer, tmp string, idx int) (res Result
 			fail("save-compiled", err.Error(), "")
 			return
 		}
-		if err := cl.SaveCompiled(e1, "t2"); err != nil {
+		if err := cl.SaveCompiled(e1, helperName); err != nil {
 			fail("save-compiled-helper", err.Error(), "")
 			return
 		}
@@ -198,6 +218,17 @@ func runCompiled(c *C16Case, rec *bufio.Writer, tmp string, idx int) (res Result
 		e3.RegisterLoader(twig.NewCompiledLoader(dir))
 		out3, err3 := e3.Render(name, ctx)
 		check("compiled-loader", out3, err3)
+		// saving again after the template changed must replace the file at once
+		changed := "CHANGED" + src
+		if err := e1.RegisterString(name, changed); err == nil {
+			if err := cl.SaveCompiled(e1, name); err != nil {
+				fail("save-compiled-again", err.Error(), "")
+			} else if raw, err := os.ReadFile(filepath.Join(dir, name+".twig.compiled")); err == nil {
+				if fb, err := twig.DeserializeCompiledTemplate(raw); err != nil || fb.Source != changed {
+					fail("file-stale-after-resave", fmt.Sprintf("%v", err), "the changed source")
+				}
+			}
+		}
 	}
 	return
 }
@@ -240,9 +271,12 @@ func cmdCompiled(args []string) {
 			os.Exit(2)
 		}
 		n++
-		res := runCompiled(&c, rec, tmp, n)
+		res, hung := guarded(20*time.Second, func() Result { return runCompiled(&c, rec, tmp, n) }, func() Result { return hangResult(c.Prop, c.Key, c.Tags, "compiled case") })
 		enc.Encode(res)
 		w.Flush()
+		if hung {
+			os.Exit(3)
+		}
 	}
 }
 
